@@ -44,3 +44,13 @@ pub fn dur10(y: i128, mo: i128, w: i128, d: i128, h: i128, mi: i128, s: i128, ms
     json!({"y": big(y), "mo": big(mo), "w": big(w), "d": big(d), "h": big(h), "mi": big(mi), "s": big(s), "ms": big(ms), "us": big(us), "ns": big(ns)})
 }
 pub fn date_dur(y: i128, mo: i128, w: i128, d: i128) -> Value { dur10(y, mo, w, d, 0, 0, 0, 0, 0, 0) }
+
+pub fn days_from_civil(y: i64, m: i64, d: i64) -> i64 {
+    let y2 = if m <= 2 { y - 1 } else { y };
+    let era = y2.div_euclid(400);
+    let yoe = y2.rem_euclid(400);
+    let mp = (m + 9) % 12;
+    let doy = (153 * mp + 2) / 5 + d - 1;
+    let doe = yoe * 365 + yoe / 4 - yoe / 100 + doy;
+    era * 146_097 + doe - 719_468
+}
